@@ -55,6 +55,8 @@ func runC05(c *Ctx) {
 	ruleExactCompare(c, "C05.13")
 	c08Literals(c, "C05.14")
 	ruleNoArithmeticOnStatementInts(c, "C05.15")
+	ruleLimitOnlyAtTheEnd(c, "C05.16")
+	ruleNoErrorSwallow(c, "C05.17", "engine")
 }
 
 // ---- C05.1 ---------------------------------------------------------------------
@@ -914,6 +916,7 @@ func runC06(c *Ctx) {
 	ruleLookupKeys(c, "C06.7")
 	c05Layering(c, "C06.8")
 	ruleJoinReturnsBuiltRows(c, "C06.9")
+	ruleNoErrorSwallow(c, "C06.10", "engine")
 }
 
 func c06JoinMapping(c *Ctx, rule string) {
@@ -1328,6 +1331,7 @@ func runC07(c *Ctx) {
 	ruleJoinNoEarlyReturn(c, "C07.9")
 	c.Rule("C07.10", "values aggregated are the values stored: the row codec is symmetric per column type (C08.4)")
 	checkCodecPair(c, "C07.10", "storage.(*Tuple).Encode", "storage.(*Tuple).Decode")
+	ruleLimitOnlyAtTheEnd(c, "C07.11")
 }
 
 func c07Rounding(c *Ctx, rule string) {
